@@ -35,7 +35,7 @@ use num_traits::{One, Signed, Zero};
 use std::collections::{BTreeMap, BTreeSet};
 use std::marker::PhantomData;
 use std::sync::atomic::{AtomicU64, Ordering};
-use std::sync::OnceLock;
+use std::sync::{Mutex, OnceLock};
 
 use ark_ff::fields::fp6_2over3::{Fp6Config as Fp6Config2o3, Fp6ConfigWrapper as Fp6Wrapper2o3};
 use ark_ff::fields::fp6_3over2::{Fp6Config as Fp6Config3o2, Fp6ConfigWrapper as Fp6Wrapper3o2};
@@ -43,6 +43,52 @@ use ark_ff::fields::fp6_3over2::{Fp6Config as Fp6Config3o2, Fp6ConfigWrapper as 
 /// sources scanned for the registry staleness check and the derive attributes
 fn repo() -> String {
     std::env::var("C16_REPO").unwrap_or_else(|_| "/repo".to_string())
+}
+
+// ---------------------------------------------------------------------
+// relation results that are not verdicts about the library
+// ---------------------------------------------------------------------
+
+/// a relation that could not be evaluated because the harness could not read / parse the sources
+/// (file missing, attribute reformatted): reported through `Ctx::machinery_error` (exit 2), never as a violation
+const MACHINERY: &str = "MACHINERY: ";
+static MACHINERY_ERRORS: Mutex<Vec<String>> = Mutex::new(Vec::new());
+fn machinery(msg: String) -> String {
+    format!("{MACHINERY}{msg}")
+}
+/// observations about a configuration that the property does not demand (a conservative flag, an RFC
+/// recommendation for the CHOICE of a parameter, an undocumented exact value ...): recorded as branch classes
+static OBSERVED: Mutex<BTreeMap<&'static str, u64>> = Mutex::new(BTreeMap::new());
+fn observe(class: &'static str) {
+    *OBSERVED.lock().unwrap().entry(class).or_insert(0) += 1;
+}
+
+/// text of a source file of the repository the harness was built against; unreadable = machinery error
+fn read_source(file: &str) -> Result<String, String> {
+    std::fs::read_to_string(format!("{}/{file}", repo())).map_err(|e| machinery(format!("cannot read {}/{file}: {e}", repo())))
+}
+/// the comment lines (`//`, `///`) among the `window` lines directly above the first non-comment line that
+/// contains `needle`; Ok(None) if the (readable) file has no such line
+fn comment_above(file: &str, needle: &str, window: usize) -> Result<Option<Vec<String>>, String> {
+    let txt = read_source(file)?;
+    let lines: Vec<&str> = txt.lines().collect();
+    let pos = lines.iter().position(|l| !l.trim_start().starts_with("//") && l.contains(needle));
+    Ok(pos.map(|i| {
+        lines[i.saturating_sub(window)..i]
+            .iter()
+            .map(|l| l.trim_start())
+            .filter(|l| l.starts_with("//"))
+            .map(|l| l.trim_start_matches('/').trim().to_string())
+            .collect()
+    }))
+}
+/// does some comment line of the file contain all the given (lower-case) fragments?
+fn comment_says(file: &str, fragments: &[&str]) -> Result<bool, String> {
+    let txt = read_source(file)?;
+    Ok(txt.lines().map(|l| l.trim_start()).filter(|l| l.starts_with("//")).any(|l| {
+        let l = l.to_lowercase();
+        fragments.iter().all(|f| l.contains(f))
+    }))
 }
 
 // =====================================================================
@@ -898,7 +944,7 @@ fn scan_sources(errors: &mut Vec<String>) -> BTreeMap<(String, String), u64> {
 
 /// attributes of `#[derive(MontConfig)] ... pub struct <name>;` in a source file
 fn derive_attrs(file: &str, name: &str) -> Result<BTreeMap<String, String>, String> {
-    let txt = std::fs::read_to_string(format!("{}/{file}", repo())).map_err(|e| format!("cannot read {file}: {e}"))?;
+    let txt = read_source(file)?;
     let lines: Vec<&str> = txt.lines().collect();
     let mut i = 0;
     while i < lines.len() {
@@ -927,7 +973,7 @@ fn derive_attrs(file: &str, name: &str) -> Result<BTreeMap<String, String>, Stri
         }
         i += 1;
     }
-    Err(format!("no #[derive(MontConfig)] struct {name} in {file}"))
+    Err(machinery(format!("no #[derive(MontConfig)] struct {name} with single-line `#[key = \"value\"]` attributes found in {file} (source reformatted?)")))
 }
 fn parse_int(s: &str) -> Result<SBig, String> {
     let t = s.replace('_', "");
@@ -940,8 +986,45 @@ fn parse_int(s: &str) -> Result<SBig, String> {
     } else {
         BigUint::parse_bytes(t.as_bytes(), 10)
     }
-    .ok_or_else(|| format!("cannot parse integer literal {s:?}"))?;
+    .ok_or_else(|| machinery(format!("cannot parse integer literal {s:?} of a derive attribute")))?;
     Ok(SBig::from_biguint(if neg { Sign::Minus } else { Sign::Plus }, v))
+}
+
+/// `SQRT_PRECOMP` of any field of the oracle tower.  `None` is legitimate (sqrt is then unavailable / generic);
+/// for `Some` the constants it contains must be what the variant says they are; a variant this check does not
+/// know is not judged.
+fn check_sqrt_precomp<X: Rd + Field>(pre: &Option<SqrtPrecomputation<X>>) -> Result<(), String> {
+    let tw = X::tw();
+    let q = tw.order();
+    let qm1 = &q - 1u32;
+    let s = qm1.trailing_zeros().unwrap();
+    let t = &qm1 >> s;
+    match pre {
+        None => {
+            observe("sqrt_precomp:none");
+            Ok(())
+        },
+        Some(SqrtPrecomputation::Case3Mod4 { modulus_plus_one_div_four }) => {
+            observe("sqrt_precomp:case3mod4");
+            ensure((&q % 4u32) == big(3), || "Case3Mod4 used although q % 4 != 3".to_string())?;
+            want(from_limbs(modulus_plus_one_div_four), (&q + 1u32) >> 2)
+        },
+        Some(SqrtPrecomputation::TonelliShanks { two_adicity, quadratic_nonresidue_to_trace, trace_of_modulus_minus_one_div_two }) => {
+            observe("sqrt_precomp:tonelli_shanks");
+            want(*two_adicity as u64, s).map_err(|e| format!("two_adicity {e}"))?;
+            want(from_limbs(trace_of_modulus_minus_one_div_two), (&t - 1u32) >> 1).map_err(|e| format!("trace_of_modulus_minus_one_div_two {e}"))?;
+            let z = quadratic_nonresidue_to_trace.rd();
+            // t-th power of a non-residue <=> order exactly 2^s
+            ensure(tw.pow(&z, &pow2(s as usize - 1)) == tw.neg(&tw.one()), || {
+                format!("quadratic_nonresidue_to_trace {} is not the t-th power of a quadratic non-residue (order != 2^{s})", tw.show(&z))
+            })
+        },
+        #[allow(unreachable_patterns)]
+        Some(_) => {
+            observe("sqrt_precomp:variant_not_judged");
+            Ok(())
+        },
+    }
 }
 
 // =====================================================================
@@ -963,9 +1046,12 @@ fn prime_field<T: MontConfig<N>, const N: usize>(reg: &mut Reg, cfg: &str, file:
     // --- the modulus itself
     reg.rel(cfg, "modulus_limb_count", 0, || {
         let p = pmod::<T, N>();
-        ensure(p.bits() as usize > 64 * (N - 1) && p.bits() as usize <= 64 * N, || {
-            format!("modulus has {} bits, N = {N} limbs is not the minimal limb count", p.bits())
-        })
+        // the defining condition is that the modulus fits (and is not zero); a non-minimal limb count is
+        // wasteful but denotes the same field - observed, not demanded
+        if p.bits() as usize <= 64 * (N - 1) {
+            observe("field:limb_count_not_minimal");
+        }
+        ensure(!p.is_zero() && p.bits() as usize <= 64 * N, || format!("modulus has {} bits and does not fit N = {N} limbs", p.bits()))
     });
     reg.rel(cfg, "modulus_prime", 0, || {
         let p = pmod::<T, N>();
@@ -1017,15 +1103,81 @@ fn prime_field<T: MontConfig<N>, const N: usize>(reg: &mut Reg, cfg: &str, file:
         // the remaining 64N-1 bits are not all one
         let p = pmod::<T, N>();
         let w = T::MODULUS.0[N - 1] >> 63 == 0 && p != pow2(64 * N - 1) - 1u32;
-        want(T::CAN_USE_NO_CARRY_MUL_OPT, w)
+        // soundness only: the flag may be set only if the condition holds; a conservative `false` is legitimate
+        if w && !T::CAN_USE_NO_CARRY_MUL_OPT {
+            observe("field:no_carry_mul_flag_conservative");
+        }
+        ensure(w || !T::CAN_USE_NO_CARRY_MUL_OPT, || "CAN_USE_NO_CARRY_MUL_OPT is set although the modulus does not satisfy the condition of the optimisation (top bit clear, remaining bits not all one)".to_string())
     });
     reg.rel(cfg, "can_use_no_carry_square_opt", 0, || {
         // the only consumer (asm squaring) is the asm multiplication with b = a, so the flag must
         // satisfy the multiplication condition
         let p = pmod::<T, N>();
         let w = T::MODULUS.0[N - 1] >> 63 == 0 && p != pow2(64 * N - 1) - 1u32;
-        want(T::CAN_USE_NO_CARRY_SQUARE_OPT, w)
+        if w && !T::CAN_USE_NO_CARRY_SQUARE_OPT {
+            observe("field:no_carry_square_flag_conservative");
+        }
+        ensure(w || !T::CAN_USE_NO_CARRY_SQUARE_OPT, || "CAN_USE_NO_CARRY_SQUARE_OPT is set although the modulus does not satisfy the condition of the optimisation (top bit clear, remaining bits not all one)".to_string())
     });
+    // --- the same constants read through the trait impls of Fp (what downstream code sees) equal the config's
+    reg.rel(cfg, "fp_trait_constants_equal_config", 0, || {
+        type FF<T, const N: usize> = F<T, N>;
+        want(<FF<T, N> as PrimeField>::MODULUS.0, T::MODULUS.0).map_err(|e| format!("<Fp as PrimeField>::MODULUS vs MontConfig::MODULUS: {e}"))?;
+        want((<FF<T, N> as FftField>::GENERATOR.0).0, (T::GENERATOR.0).0).map_err(|e| format!("<Fp as FftField>::GENERATOR vs MontConfig::GENERATOR (raw limbs): {e}"))?;
+        want(<FF<T, N> as FftField>::TWO_ADICITY, <MontBackend<T, N> as ark_ff::FpConfig<N>>::TWO_ADICITY).map_err(|e| format!("<Fp as FftField>::TWO_ADICITY vs FpConfig::TWO_ADICITY of the Montgomery backend: {e}"))?;
+        want(<MontBackend<T, N> as ark_ff::FpConfig<N>>::MODULUS.0, T::MODULUS.0).map_err(|e| format!("FpConfig::MODULUS of the Montgomery backend vs MontConfig::MODULUS: {e}"))?;
+        want((<FF<T, N> as FftField>::TWO_ADIC_ROOT_OF_UNITY.0).0, (T::TWO_ADIC_ROOT_OF_UNITY.0).0).map_err(|e| format!("<Fp as FftField>::TWO_ADIC_ROOT_OF_UNITY vs MontConfig's (raw limbs): {e}"))?;
+        want(<FF<T, N> as FftField>::SMALL_SUBGROUP_BASE, T::SMALL_SUBGROUP_BASE).map_err(|e| format!("SMALL_SUBGROUP_BASE: {e}"))?;
+        want(<FF<T, N> as FftField>::SMALL_SUBGROUP_BASE_ADICITY, T::SMALL_SUBGROUP_BASE_ADICITY).map_err(|e| format!("SMALL_SUBGROUP_BASE_ADICITY: {e}"))?;
+        want(<FF<T, N> as FftField>::LARGE_SUBGROUP_ROOT_OF_UNITY.map(|w| (w.0).0), T::LARGE_SUBGROUP_ROOT_OF_UNITY.map(|w| (w.0).0)).map_err(|e| format!("LARGE_SUBGROUP_ROOT_OF_UNITY (raw limbs): {e}"))
+    })
+    .class("field:constants_through_fp_traits");
+    // get_root_of_unity(n) has exact order n: n = 1, 2, 2^TWO_ADICITY and, with a small subgroup, b, 2 b, 2^s b^k
+    {
+        let p = pmod::<T, N>();
+        let s = (&p - 1u32).trailing_zeros().unwrap();
+        let mut ns: Vec<u64> = vec![1, 2];
+        if s < 64 {
+            ns.push(1u64 << s);
+        }
+        if let (Some(b), Some(k)) = (T::SMALL_SUBGROUP_BASE, T::SMALL_SUBGROUP_BASE_ADICITY) {
+            ns.push(b as u64);
+            ns.push(2 * b as u64);
+            if let Some(n) = (b as u64).checked_pow(k).and_then(|bk| if s < 64 { bk.checked_mul(1u64 << s) } else { None }) {
+                ns.push(n);
+            }
+        }
+        ns.sort();
+        ns.dedup();
+        for (idx, n) in ns.into_iter().enumerate() {
+            reg.rel(cfg, "get_root_of_unity_exact_order", idx, move || {
+                let p = pmod::<T, N>();
+                let w = <F<T, N> as FftField>::get_root_of_unity(n).ok_or_else(|| format!("get_root_of_unity({n}) = None although {n} divides the size of the FFT subgroup"))?;
+                let w = dec::<T, N>(&w);
+                ensure(w.modpow(&big(n), &p).is_one(), || format!("get_root_of_unity({n}) = {w}: w^{n} != 1"))?;
+                let mut m = n;
+                let mut d = 2u64;
+                let mut qs = Vec::new();
+                while d * d <= m {
+                    if m % d == 0 {
+                        qs.push(d);
+                        while m % d == 0 {
+                            m /= d;
+                        }
+                    }
+                    d += 1;
+                }
+                if m > 1 {
+                    qs.push(m);
+                }
+                for q in qs {
+                    ensure(!w.modpow(&big(n / q), &p).is_one(), || format!("get_root_of_unity({n}) = {w} has order dividing {n}/{q}, not exactly {n}"))?;
+                }
+                Ok(())
+            })
+            .class(if n == 1 { "root_of_unity:n=1" } else if n == 2 { "root_of_unity:n=2" } else if n.is_power_of_two() { "root_of_unity:n=2^two_adicity" } else { "root_of_unity:mixed_radix" });
+        }
+    }
     // --- generator and roots of unity
     reg.rel(cfg, "constants_canonical", 0, || {
         let p = pmod::<T, N>();
@@ -1120,40 +1272,17 @@ fn prime_field<T: MontConfig<N>, const N: usize>(reg: &mut Reg, cfg: &str, file:
     }
     // --- square-root precomputation
     let mod4 = (T::MODULUS.0[0] & 3) as u8;
-    reg.rel(cfg, "sqrt_precomp", 0, || {
-        let p = pmod::<T, N>();
-        let pm1 = &p - 1u32;
-        let s = pm1.trailing_zeros().unwrap();
-        let t = &pm1 >> s;
-        match <F<T, N> as Field>::SQRT_PRECOMP {
-            None => Err("SQRT_PRECOMP is None".into()),
-            Some(SqrtPrecomputation::Case3Mod4 { modulus_plus_one_div_four }) => {
-                ensure((&p % 4u32) == big(3), || "Case3Mod4 used although p % 4 != 3".to_string())?;
-                want(from_limbs(modulus_plus_one_div_four), (&p + 1u32) >> 2)
-            },
-            Some(SqrtPrecomputation::TonelliShanks { two_adicity, quadratic_nonresidue_to_trace, trace_of_modulus_minus_one_div_two }) => {
-                want(two_adicity as u64, s).map_err(|e| format!("two_adicity {e}"))?;
-                want(from_limbs(trace_of_modulus_minus_one_div_two), (&t - 1u32) >> 1).map_err(|e| format!("trace_of_modulus_minus_one_div_two {e}"))?;
-                let z = dec::<T, N>(&quadratic_nonresidue_to_trace);
-                // t-th power of a non-residue <=> order exactly 2^s
-                ensure(z.modpow(&pow2(s as usize - 1), &p) == &p - 1u32, || {
-                    format!("quadratic_nonresidue_to_trace {z} is not the t-th power of a quadratic non-residue (order != 2^{s})")
-                })
-            },
-            #[allow(unreachable_patterns)]
-            Some(_) => Err("unknown SqrtPrecomputation variant".into()),
-        }
-    })
+    reg.rel(cfg, "sqrt_precomp", 0, || check_sqrt_precomp::<F<T, N>>(&<F<T, N> as Field>::SQRT_PRECOMP))
     .class(if mod4 == 3 { "field:sqrt_case3mod4" } else { "field:sqrt_tonelli_shanks" });
     // --- derive attributes in the source text denote the constants
     reg.rel(cfg, "derive_attr_modulus", 0, move || {
         let a = derive_attrs(file, struct_name)?;
-        let m = parse_int(a.get("modulus").ok_or("no modulus attribute")?)?;
+        let m = parse_int(a.get("modulus").ok_or_else(|| machinery(format!("no single-line modulus attribute on {struct_name} in {file}")))?)?;
         want(SBig::from(pmod::<T, N>()), m)
     });
     reg.rel(cfg, "derive_attr_generator", 0, move || {
         let a = derive_attrs(file, struct_name)?;
-        let g = parse_int(a.get("generator").ok_or("no generator attribute")?)?;
+        let g = parse_int(a.get("generator").ok_or_else(|| machinery(format!("no single-line generator attribute on {struct_name} in {file}")))?)?;
         let p = SBig::from(pmod::<T, N>());
         want(SBig::from(dec::<T, N>(&T::GENERATOR)), g.mod_floor(&p))
     });
@@ -1162,7 +1291,7 @@ fn prime_field<T: MontConfig<N>, const N: usize>(reg: &mut Reg, cfg: &str, file:
         let get = |k: &str| -> Result<Option<u32>, String> {
             match a.get(k) {
                 None => Ok(None),
-                Some(v) => v.parse::<u32>().map(Some).map_err(|e| format!("{k}: {e}")),
+                Some(v) => v.parse::<u32>().map(Some).map_err(|e| machinery(format!("derive attribute {k} = {v:?} of {struct_name} in {file}: {e}"))),
             }
         };
         want((T::SMALL_SUBGROUP_BASE, T::SMALL_SUBGROUP_BASE_ADICITY), (get("small_subgroup_base")?, get("small_subgroup_power")?))
@@ -1368,20 +1497,19 @@ where
         want_el(&tw, &tw.pow(&z, &pow2(s as usize - 1)), &tw.neg(&tw.one()))
             .map_err(|e| format!("QUADRATIC_NONRESIDUE_TO_T {} does not have order exactly 2^{s}: z^(2^(s-1)) {e}", tw.show(&z)))
     });
+    reg.rel(cfg, "fp3_sqrt_precomp", 0, || check_sqrt_precomp::<ark_ff::Fp3<P>>(&<ark_ff::Fp3<P> as Field>::SQRT_PRECOMP));
     // every shipped Fp3 configuration documents this constant as NONRESIDUE^T ("NONRESIDUE^T % q", "(11^T, 0, 0)"
     // with NONRESIDUE = 11, ...): the cubic non-residue of the tower doubles as the quadratic non-residue
-    // (only demanded where the configuration's source says so in the comment above the constant)
-    let documented = std::fs::read_to_string(format!("/repo/{file}"))
-        .or_else(|_| std::fs::read_to_string(file))
-        .map(|txt| {
-            let lines: Vec<&str> = txt.lines().collect();
-            lines.iter().position(|l| l.contains("const QUADRATIC_NONRESIDUE_TO_T")).map(|i| lines[i.saturating_sub(4)..i].iter().any(|l| l.contains("//") && l.contains("^T"))).unwrap_or(false)
-        })
-        .unwrap_or(false);
+    // (only demanded where the configuration's source - in the repository the harness is built against - says so
+    // in the comment above the constant; an unreadable source file is a machinery error, not "undocumented")
+    let src = file.to_string();
     reg.rel(cfg, "fp3_quadratic_nonresidue_to_t_is_nonresidue_to_t", 0, move || {
+        let documented = comment_above(&src, "const QUADRATIC_NONRESIDUE_TO_T", 4)?.map(|c| c.iter().any(|l| l.contains("^T"))).unwrap_or(false);
         if !documented {
+            observe("fp3:quadratic_nonresidue_to_t_base_not_documented");
             return Ok(());
         }
+        observe("fp3:quadratic_nonresidue_to_t_documented_as_nonresidue^t");
         let tw = <ark_ff::Fp3<P> as Rd>::tw();
         let qm1 = tw.order() - 1u32;
         let t = &qm1 >> qm1.trailing_zeros().unwrap();
@@ -1468,7 +1596,8 @@ where
         let beta = P::NONRESIDUE.rd();
         hook1::<ark_ff::Fp2<P::Fp2Config>>(|x| P::mul_fp2_by_nonresidue(x), |t, x| t.mul(&beta, x))
     });
-    reg.rel(cfg, "fp6_sqrt_precomp_is_none", 0, || ensure(P::SQRT_PRECOMP.is_none(), || "Fp6Config::SQRT_PRECOMP is set; C16 has no relation for it".to_string()));
+    // None (the default) is legitimate; a precomputation that is set must hold the right constants
+    reg.rel(cfg, "fp6_sqrt_precomp", 0, || check_sqrt_precomp::<ark_ff::Fp6<P>>(&P::SQRT_PRECOMP));
 }
 
 fn fp12_cfg<P: Fp12Config>(reg: &mut Reg, cfg: &str, file: &str)
@@ -1526,12 +1655,16 @@ where
         want((&h * &hi) % &r, BigUint::one()).map_err(|e| format!("COFACTOR {h} * COFACTOR_INV {hi} mod r: {e}"))
     });
     reg.rel(cfg, "cofactor_is_one_flag", 0, || want(C::cofactor_is_one(), cofactor::<C>().is_one()));
-    reg.rel(cfg, "hasse_bound", 0, || {
+    // COFACTOR * r must be a possible group order over the base field F_q, q = p^k: |h r - (q + 1)| <= 2 sqrt(q)
+    // (compared as squares).  A COFACTOR that is a proper multiple of the true cofactor (with a matching
+    // COFACTOR_INV) satisfies (h r) P = O and h h^-1 = 1 mod r, but leaves the Hasse interval.
+    reg.rel(cfg, "cofactor_times_r_is_the_group_order_size", 0, || {
         let q = SBig::from(<C::BaseField as Rd>::tw().order());
         let n = SBig::from(cofactor::<C>() * r_of::<C>());
         let t = &q + 1 - &n;
-        ensure(&t * &t <= &q * 4, || format!("COFACTOR * r = {n} violates the Hasse bound for q = {q} (trace would be {t})"))
-    });
+        ensure(&t * &t <= &q * 4, || format!("COFACTOR * r = {n} is outside the Hasse interval of F_q, q = {q}: (h r - q - 1)^2 = {} > 4 q (trace would be {t})", &t * &t))
+    })
+    .class("curve:cofactor_times_r_in_hasse_interval");
 }
 
 fn sw_model<C: SWCurveConfig>() -> SwCurve
@@ -1737,9 +1870,10 @@ where
 
 /// configs whose SW model is documented as the image of the TE model under the standard maps
 /// TE -> Montgomery (u, v) = ((1+y)/(1-y), u/x) -> SW (x, y) = ((u + A/3)/B, v/B)
-fn sw_is_image_of_te<C: SWCurveConfig + TECurveConfig + MontCurveConfig>(reg: &mut Reg, cfg: &str)
+fn sw_is_image_of_te<C: SWCurveConfig + TECurveConfig + MontCurveConfig>(reg: &mut Reg, cfg: &str, file: &str)
 where
     C::BaseField: Rd,
+    C::ScalarField: Rd,
 {
     fn mont<C: MontCurveConfig>() -> (El, El)
     where
@@ -1760,7 +1894,13 @@ where
         let a3 = f.mul(&f.sq(&a), &a);
         want_el(&f, &f.mul(&<C as SWCurveConfig>::COEFF_B.rd(), &f.muls(&f.mul(&f.sq(&b), &b), 27)), &f.sub(&f.muls(&a3, 2), &f.muls(&a, 9)))
     });
-    reg.rel(cfg, "sw_generator_is_image_of_te_generator", 0, || {
+    // what the two models need: the map sends the TE generator to a point of order r of the SW curve (both
+    // generators are on their curves with order r by the relations of sw_curve / te_curve).  That the SW
+    // generator IS that image is demanded only where the source says so ("... generator is the same ...
+    // generator converted into ... form"); elsewhere it is an observation.
+    let src = file.to_string();
+    reg.rel(cfg, "sw_generator_is_image_of_te_generator", 0, move || {
+        let documented = comment_says(&src, &["generator", "is the same", "converted"])?;
         let f = <C::BaseField as Rd>::tw();
         let (a, b) = mont::<C>();
         let g = <C as TECurveConfig>::GENERATOR;
@@ -1769,8 +1909,19 @@ where
         let v = f.div(&u, &x).ok_or("x = 0")?;
         let wx = f.div(&f.add(&u, &f.div(&a, &f.from_u64(3)).ok_or("char 3")?), &b).ok_or("B = 0")?;
         let wy = f.div(&v, &b).ok_or("B = 0")?;
+        let c = sw_model::<C>();
+        let img: Pt = Some((wx.clone(), wy.clone()));
+        ensure(c.on_curve(&img), || format!("the image ({}, {}) of the TE GENERATOR under TE -> Montgomery -> SW is not on the SW curve", f.show(&wx), f.show(&wy)))?;
+        ensure(c.mul(&r_of::<C>(), &img).is_none(), || "the image of the TE GENERATOR under TE -> Montgomery -> SW does not have order r".to_string())?;
         let s = <C as SWCurveConfig>::GENERATOR;
-        ensure(s.x.rd() == wx && s.y.rd() == wy, || format!("SW GENERATOR is not the image of the TE GENERATOR: want ({}, {})", f.show(&wx), f.show(&wy)))
+        let exact = !s.infinity && s.x.rd() == wx && s.y.rd() == wy;
+        if documented {
+            observe("te_sw:generator_correspondence_documented");
+            ensure(exact, || format!("SW GENERATOR is not the image of the TE GENERATOR (the source documents it as the converted TE generator): want ({}, {})", f.show(&wx), f.show(&wy)))
+        } else {
+            observe(if exact { "te_sw:generators_correspond(undocumented)" } else { "te_sw:generators_differ(undocumented)" });
+            Ok(())
+        }
     });
 }
 
@@ -1807,7 +1958,10 @@ fn bls12_377_g1_te_chain(reg: &mut Reg, cfg: &str) {
         // TE2d = -TE1d / TE1a
         want_el(f, &f.mul(&<C as TECurveConfig>::COEFF_D.rd(), &v.te1a), &f.neg(&v.te1d)).map_err(|e| format!("TE d * TE1a vs -TE1d: {e}"))
     });
+    // needed: the documented chain sends the SW generator to a point of order r of the TE curve; that the TE
+    // generator IS that image (up to the sign of the square root) only because the source says so
     reg.rel(cfg, "bls12_377_te_generator_from_sw_generator", 0, || {
+        let documented = comment_says("curves/bls12_377/src/curves/g1.rs", &["generator", "is the same", "converted"])?;
         let v = v()?;
         let f = &v.f;
         let g = <C as SWCurveConfig>::GENERATOR;
@@ -1815,10 +1969,26 @@ fn bls12_377_g1_te_chain(reg: &mut Reg, cfg: &str) {
         let my = f.mul(&v.mb, &g.y.rd());
         let te1x = f.div(&mx, &my).ok_or("My = 0")?;
         let te1y = f.div(&f.sub(&mx, &f.one()), &f.add(&mx, &f.one())).ok_or("Mx = -1")?;
+        // x = TE1x * sqrt(-TE1a) (the sign of the root is a free choice)
+        let beta = f.sqrt(&f.neg(&v.te1a)).ok_or("-TE1a is not a square: the curve has no TE form with a = -1 over F_q")?;
+        let img = (f.mul(&te1x, &beta), te1y.clone());
+        let c = te_model::<C>();
+        ensure(c.on_curve(&img) && !c.is_identity(&img), || "the image of the SW GENERATOR under the documented chain SW -> Montgomery -> TE1 -> TE2 is not a non-trivial point of the TE curve".to_string())?;
+        let r = modulus_of::<ark_bls12_377::Fr>();
+        match c.mul(&r, &img) {
+            Ok(ri) => ensure(c.is_identity(&ri), || "the image of the SW GENERATOR under the documented chain does not have order r".to_string())?,
+            Err(_) => te_order_via_weierstrass(&c, &img, &r)?,
+        }
         let t = <C as TECurveConfig>::GENERATOR;
-        want_el(f, &t.y.rd(), &te1y).map_err(|e| format!("TE generator y: {e}"))?;
-        // x = TE1x * sqrt(-TE1a): compare squares (the sign of the root is a free choice)
-        want_el(f, &f.sq(&t.x.rd()), &f.mul(&f.sq(&te1x), &f.neg(&v.te1a))).map_err(|e| format!("TE generator x^2: {e}"))
+        let exact = t.y.rd() == te1y && f.sq(&t.x.rd()) == f.mul(&f.sq(&te1x), &f.neg(&v.te1a));
+        if documented {
+            observe("te_sw:generator_correspondence_documented");
+            want_el(f, &t.y.rd(), &te1y).map_err(|e| format!("TE generator y: {e}"))?;
+            want_el(f, &f.sq(&t.x.rd()), &f.mul(&f.sq(&te1x), &f.neg(&v.te1a))).map_err(|e| format!("TE generator x^2: {e}"))
+        } else {
+            observe(if exact { "te_sw:generators_correspond(undocumented)" } else { "te_sw:generators_differ(undocumented)" });
+            Ok(())
+        }
     });
 }
 
@@ -1833,10 +2003,24 @@ where
 {
     reg.declare(file, &["GLVConfig"]);
     reg.rel(cfg, "glv_endo_coeff_order_3", 0, || {
-        want(C::ENDO_COEFFS.len(), 1)?;
+        // every listed coefficient must satisfy the endomorphism equation; how many are listed is free.  On a
+        // j = 0 curve (a = 0) the endomorphism is (x, y) -> (beta x, y), beta^3 = 1, beta != 1; for another kind
+        // of endomorphism the coefficients are judged through `endomorphism(G) = LAMBDA * G` only.
         let f = <C::BaseField as Rd>::tw();
-        let b = C::ENDO_COEFFS[0].rd();
-        ensure(b != f.one() && f.mul(&f.sq(&b), &b) == f.one(), || format!("ENDO_COEFFS[0] = {} is not a primitive cube root of unity", f.show(&b)))
+        observe(match C::ENDO_COEFFS.len() {
+            0 => "glv:endo_coeffs=0",
+            1 => "glv:endo_coeffs=1",
+            _ => "glv:endo_coeffs>1",
+        });
+        if !f.is_zero(&<C as SWCurveConfig>::COEFF_A.rd()) {
+            observe("glv:endo_coeffs_not_cube_root_type(not judged)");
+            return Ok(());
+        }
+        for (k, b) in C::ENDO_COEFFS.iter().enumerate() {
+            let b = b.rd();
+            ensure(b != f.one() && f.mul(&f.sq(&b), &b) == f.one(), || format!("ENDO_COEFFS[{k}] = {} is not a primitive cube root of unity", f.show(&b)))?;
+        }
+        Ok(())
     });
     reg.rel(cfg, "glv_lambda_order_3", 0, || {
         let r = r_of::<C>();
@@ -1847,7 +2031,11 @@ where
         let c = sw_model::<C>();
         let g = sw_gen::<C>().ok_or("generator at infinity")?;
         let lg = c.mul(&scalar(&C::LAMBDA), &Some(g.clone()));
-        let phi = Some((c.f.mul(&C::ENDO_COEFFS[0].rd(), &g.0), g.1.clone()));
+        let beta = match C::ENDO_COEFFS.first() {
+            Some(b) if c.f.is_zero(&c.a) => b.rd(),
+            _ => return Ok(()), // no coefficient of the (beta x, y) kind: see glv_endomorphism_affine
+        };
+        let phi = Some((c.f.mul(&beta, &g.0), g.1.clone()));
         ensure(lg == phi, || "(beta * x, y) != LAMBDA * G for the generator G (plain double-and-add)".to_string())
     })
     .class("glv:eigenvalue");
@@ -1885,11 +2073,153 @@ where
             want(v, SBig::zero()).map_err(|e| format!("n{}1 + n{}2 * LAMBDA mod r: {e}", row + 1, row + 1))
         });
     }
+    // documented (ec/src/scalar_mul/glv.rs: "The entries are the LLL-reduced bases"): a reduced basis of the
+    // rank-2 lattice of determinant r has entries of about sqrt(r): every |n_ij| < 2^(ceil(bits(r)/2) + 1)
+    for k in 0..4usize {
+        reg.rel(cfg, "glv_lattice_entries_short", k, move || {
+            let n = coeffs();
+            let bits = r_of::<C>().bits() as usize;
+            let bound = sb(&pow2((bits + 1) / 2 + 1));
+            ensure(n[k].abs() < bound, || format!("|SCALAR_DECOMP_COEFFS[{k}]| = {} has {} bits; an LLL-reduced basis for a {bits}-bit r has entries below 2^{}", n[k].abs(), n[k].abs().bits(), (bits + 1) / 2 + 1))
+        })
+        .class("glv:lattice_entries_short");
+    }
     reg.rel(cfg, "glv_lattice_det", 0, move || {
         let n = coeffs();
         let det = &n[0] * &n[3] - &n[1] * &n[2];
         want(det, SBig::from(r_of::<C>())).map_err(|e| format!("det of SCALAR_DECOMP_COEFFS (documented to equal r): {e}"))
     });
+}
+
+// ---------------------------------------------------------------------
+// public endomorphism constants / functions that are not trait items
+// ---------------------------------------------------------------------
+
+/// the two primitive cube roots of unity modulo the prime r (r = 1 mod 3)
+fn cube_roots_of_unity_mod(r: &BigUint) -> Result<[BigUint; 2], String> {
+    let rm1 = r - 1u32;
+    ensure((&rm1 % 3u32).is_zero(), || "r != 1 mod 3: no primitive cube root of unity".to_string())?;
+    for g in 2..100u64 {
+        let l = big(g).modpow(&(&rm1 / 3u32), r);
+        if !l.is_one() {
+            let l2 = (&l * &l) % r;
+            return Ok([l, l2]);
+        }
+    }
+    Err("oracle: no cubic non-residue below 100".into())
+}
+
+/// `(file, constant)` pairs of public endomorphism constants this registry covers; `main` scans the sources for
+/// `pub const ..ENDOMORPHISM.. / BETA` and fails as machinery if the two sets differ
+const PUBLIC_ENDO_CONSTS: [(&str, &str); 4] = [
+    ("curves/bls12_381/src/curves/g1.rs", "BETA"),
+    ("test-curves/src/bls12_381/g2.rs", "P_POWER_ENDOMORPHISM_COEFF_0"),
+    ("test-curves/src/bls12_381/g2.rs", "P_POWER_ENDOMORPHISM_COEFF_1"),
+    ("test-curves/src/bls12_381/g2.rs", "DOUBLE_P_POWER_ENDOMORPHISM"),
+];
+
+fn public_endomorphisms(reg: &mut Reg) {
+    // ---- curves/bls12_381 g1: pub const BETA, pub fn endomorphism
+    {
+        use ark_bls12_381::g1;
+        type C = g1::Config;
+        let cfg = "bls12_381/g1(public BETA, endomorphism)";
+        reg.rel(cfg, "public_beta_is_primitive_cube_root", 0, || {
+            let f = <ark_bls12_381::Fq as Rd>::tw();
+            let b = g1::BETA.rd();
+            ensure(b != f.one() && f.mul(&f.sq(&b), &b) == f.one(), || format!("BETA = {} is not a primitive cube root of unity in Fq", f.show(&b)))
+        })
+        .class("endo:public_constants");
+        reg.rel(cfg, "public_endomorphism_is_beta_x", 0, || {
+            let c = sw_model::<C>();
+            for k in 0..3usize {
+                let (x, y) = if k == 0 { sw_gen::<C>().ok_or("generator at infinity")? } else { c.nth_point(k) };
+                let p = sw::Affine::<C>::new_unchecked(<ark_bls12_381::Fq as Rd>::wr(&x), <ark_bls12_381::Fq as Rd>::wr(&y));
+                let e = g1::endomorphism(&p);
+                ensure(!e.infinity && e.x.rd() == c.f.mul(&g1::BETA.rd(), &x) && e.y.rd() == y, || format!("endomorphism((x, y)) != (BETA x, y) for x = {}", c.f.show(&x)))?;
+                ensure(c.on_curve(&Some((e.x.rd(), e.y.rd()))), || format!("endomorphism(P) is not on the curve for x = {}", c.f.show(&x)))?;
+            }
+            Ok(())
+        });
+        reg.rel(cfg, "public_endomorphism_eigenvalue", 0, || {
+            let c = sw_model::<C>();
+            let g = sw_gen::<C>().ok_or("generator at infinity")?;
+            let e = g1::endomorphism(&<C as SWCurveConfig>::GENERATOR);
+            let got: Pt = if e.infinity { None } else { Some((e.x.rd(), e.y.rd())) };
+            let ls = cube_roots_of_unity_mod(&r_of::<C>())?;
+            ensure(ls.iter().any(|l| c.mul(l, &Some(g.clone())) == got), || {
+                "endomorphism(G) is not [lambda]G for either primitive cube root lambda of unity mod r (plain double-and-add)".to_string()
+            })
+        })
+        .class("endo:public_eigenvalue");
+    }
+    // ---- test-curves bls12_381 g2: psi = untwist-Frobenius-twist and psi^2
+    {
+        use ark_test_curves::bls12_381 as t;
+        use ark_test_curves::bls12_381::g2;
+        type C = g2::Config;
+        type F2 = ark_test_curves::bls12_381::Fq2;
+        let cfg = "test/bls12_381/g2(public psi constants)";
+        fn xi() -> El {
+            <t::Fq6Config as Fp6Config3o2>::NONRESIDUE.rd()
+        }
+        fn conj(f: &Tw, a: &[BigUint]) -> El {
+            vec![a[0].clone(), modneg(&a[1], &f.p)]
+        }
+        /// psi(x, y) = (conj(x) / xi^((p-1)/3), conj(y) / xi^((p-1)/2)) from the definition
+        fn psi(f: &Tw, p: &(El, El)) -> Result<(El, El), String> {
+            let cx = f.inv(&f.pow(&xi(), &frob_exp(&f.p, 1, 3)?)).ok_or("xi^((p-1)/3) = 0")?;
+            let cy = f.inv(&f.pow(&xi(), &frob_exp(&f.p, 1, 2)?)).ok_or("xi^((p-1)/2) = 0")?;
+            Ok((f.mul(&conj(f, &p.0), &cx), f.mul(&conj(f, &p.1), &cy)))
+        }
+        for (which, k) in [("public_p_power_endomorphism_coeff_0", 3u32), ("public_p_power_endomorphism_coeff_1", 2u32)] {
+            reg.rel(cfg, which, 0, move || {
+                let f = <F2 as Rd>::tw();
+                let e = f.pow(&xi(), &frob_exp(&f.p, 1, k)?);
+                let got = if k == 3 { g2::P_POWER_ENDOMORPHISM_COEFF_0.rd() } else { g2::P_POWER_ENDOMORPHISM_COEFF_1.rd() };
+                want_el(&f, &f.mul(&got, &e), &f.one()).map_err(|m| format!("* (u+1)^((p-1)/{k}) vs 1 (documented: 1/(u+1)^((p-1)/{k})): {m}"))
+            })
+            .class("endo:public_constants");
+        }
+        reg.rel(cfg, "public_double_p_power_endomorphism", 0, || {
+            // psi^2(x, y) = (x c0^(p+1), -y): the constant for psi^2 is the norm c0 * conj(c0) of the constant of psi
+            let f = <F2 as Rd>::tw();
+            let c0 = f.inv(&f.pow(&xi(), &frob_exp(&f.p, 1, 3)?)).ok_or("xi^((p-1)/3) = 0")?;
+            want_el(&f, &g2::DOUBLE_P_POWER_ENDOMORPHISM.rd(), &f.mul(&c0, &conj(&f, &c0))).map_err(|m| format!("DOUBLE_P_POWER_ENDOMORPHISM vs (1/(u+1)^((p-1)/3))^(p+1): {m}"))
+        });
+        for k in 0..3usize {
+            reg.rel(cfg, "public_p_power_endomorphism_fn", k, move || {
+                let c = sw_model::<C>();
+                let f = &c.f;
+                // k = 0: the generator; k >= 1: curve points outside the subgroup
+                let (x, y) = if k == 0 { sw_gen::<C>().ok_or("generator at infinity")? } else { c.nth_point(k) };
+                let p = sw::Affine::<C>::new_unchecked(<F2 as Rd>::wr(&x), <F2 as Rd>::wr(&y));
+                let w = psi(f, &(x.clone(), y.clone()))?;
+                ensure(c.on_curve(&Some(w.clone())), || "oracle: psi(P) left the curve".to_string())?;
+                let e = g2::p_power_endomorphism(&p);
+                ensure(!e.infinity && (e.x.rd(), e.y.rd()) == w, || format!("p_power_endomorphism(P) != psi(P) for x = {}: got ({}, {}) want ({}, {})", f.show(&x), f.show(&e.x.rd()), f.show(&e.y.rd()), f.show(&w.0), f.show(&w.1)))?;
+                // psi^2 on a non-normalised Jacobian representative (4x, 8y, 2)
+                let w2 = psi(f, &w)?;
+                let pr = sw::Projective::<C> { x: <F2 as Rd>::wr(&f.muls(&x, 4)), y: <F2 as Rd>::wr(&f.muls(&y, 8)), z: <F2 as Rd>::wr(&f.from_u64(2)) };
+                let d = g2::double_p_power_endomorphism(&pr);
+                let (dx, dy, dz) = (d.x.rd(), d.y.rd(), d.z.rd());
+                let z2 = f.sq(&dz);
+                ensure(!f.is_zero(&dz) && dx == f.mul(&w2.0, &z2) && dy == f.mul(&w2.1, &f.mul(&z2, &dz)), || format!("double_p_power_endomorphism((4x, 8y, 2)) does not represent psi(psi(P)) for x = {}", f.show(&x)))
+            })
+            .class(if k == 0 { "endo:psi_on_generator" } else { "endo:psi_outside_subgroup" });
+        }
+        reg.rel(cfg, "public_p_power_endomorphism_eigenvalue", 0, || {
+            // on G2, psi acts as multiplication by p mod r
+            let c = sw_model::<C>();
+            let g = sw_gen::<C>().ok_or("generator at infinity")?;
+            let e = g2::p_power_endomorphism(&<C as SWCurveConfig>::GENERATOR);
+            let got: Pt = if e.infinity { None } else { Some((e.x.rd(), e.y.rd())) };
+            let r = r_of::<C>();
+            let k = &c.f.p % &r;
+            ensure(c.mul(&k, &Some(g)) == got, || "p_power_endomorphism(G2 generator) != [p mod r] G2 generator (plain double-and-add)".to_string())
+        })
+        .class("endo:public_eigenvalue");
+    }
 }
 
 // ---------------------------------------------------------------------
@@ -1921,19 +2251,21 @@ where
     });
 }
 
-/// RFC 9380 H.2 criteria 2 and 3 for Z (the crates cite the RFC / IETF draft for their choice of ZETA)
+/// RFC 9380 H.2 criteria 2 and 3 for the CHOICE of Z (Z != -1, g(x) - Z irreducible): recommendations of the
+/// RFC's find_z procedure, not needed by the map and not in the SWUConfig rustdoc (which asks for a non-square,
+/// conveniently with g(B/(ZETA A)) square - both demanded above): observed, never a violation
 fn swu_rfc_criteria<C: SWUConfig>(reg: &mut Reg, cfg: &str)
 where
     C::BaseField: Rd,
 {
-    reg.rel(cfg, "swu_zeta_is_not_minus_one", 0, || {
-        let f = <C::BaseField as Rd>::tw();
-        ensure(C::ZETA.rd() != f.neg(&f.one()), || "ZETA = -1".to_string())
-    });
-    reg.rel(cfg, "swu_g_minus_zeta_irreducible", 0, || {
+    reg.rel(cfg, "swu_zeta_rfc_choice_observed", 0, || {
         let c = sw_model::<C>();
         let f = &c.f;
-        ensure(f.cubic_is_irreducible(&[f.sub(&c.b, &C::ZETA.rd()), c.a.clone(), f.zero()]), || "g(x) - ZETA has a root in the base field".to_string())
+        let not_minus_one = C::ZETA.rd() != f.neg(&f.one());
+        let irreducible = f.cubic_is_irreducible(&[f.sub(&c.b, &C::ZETA.rd()), c.a.clone(), f.zero()]);
+        observe(if not_minus_one { "swu:rfc_h2_zeta_is_not_minus_one" } else { "swu:rfc_h2_zeta_is_minus_one" });
+        observe(if irreducible { "swu:rfc_h2_g_minus_zeta_irreducible" } else { "swu:rfc_h2_g_minus_zeta_reducible" });
+        Ok(())
     });
 }
 
@@ -2018,8 +2350,9 @@ where
         ensure(!f.is_zero(&z) && !f.is_square(&z), || format!("Z = {} is a square", f.show(&z)))
     })
     .class("hash:elligator2");
-    reg.rel(cfg, "elligator2_z_minimal", 0, || {
-        // RFC 9380 H.3 (find_z_ell2): first non-square in 1, -1, 2, -2, ... (prime fields only)
+    reg.rel(cfg, "elligator2_z_rfc_choice_observed", 0, || {
+        // RFC 9380 H.3 (find_z_ell2): first non-square in 1, -1, 2, -2, ... (prime fields only).  The map needs a
+        // non-square Z only (demanded above); which one is chosen is an observation.
         let f = <C::BaseField as Rd>::tw();
         if f.dim() != 1 {
             return Ok(());
@@ -2028,11 +2361,13 @@ where
         for c in 1..1000u64 {
             for cand in [f.from_u64(c), f.neg(&f.from_u64(c))] {
                 if !f.is_square(&cand) {
-                    return want_el(&f, &z, &cand).map_err(|e| format!("Z is not the non-square of lowest absolute value: {e}"));
+                    observe(if z == cand { "elligator2:z_is_rfc_h3_minimal" } else { "elligator2:z_is_not_rfc_h3_minimal" });
+                    return Ok(());
                 }
             }
         }
-        Err("no small non-square found".into())
+        observe("elligator2:no_small_nonsquare");
+        Ok(())
     });
     reg.rel(cfg, "elligator2_one_over_coeff_b_square", 0, || {
         let f = <C::BaseField as Rd>::tw();
@@ -2255,8 +2590,31 @@ where
         let m = t0.mod_floor(&x().abs());
         want(m, SBig::from(if P::T_MOD_R_IS_ZERO { 0 } else { 3 })).map_err(|e| format!("(trace mod r) mod |x|: {e}"))
     });
+    // what the pairing needs from the two loop counts: the Miller loop computes f_{c1+1,Q}(P) and f_{c1*c2,Q}(P)
+    // and raises one of them to the p-th power, so (c1 + 1) + c1 c2 p (resp. (c1 + 1) p + c1 c2) must be a
+    // multiple of r (optimal ate, formulas (4.15)/(4.17) cited in ec/src/models/bw6/mod.rs)
+    reg.rel(cfg, "bw6_ate_loop_counts_lattice", 0, move || {
+        let c1 = signed(P::ATE_LOOP_COUNT_1, P::ATE_LOOP_COUNT_1_IS_NEGATIVE);
+        let v = naf_value(P::ATE_LOOP_COUNT_2)?;
+        let c2 = if P::ATE_LOOP_COUNT_2_IS_NEGATIVE { -v } else { v };
+        let (a, b) = (&c1 + i(1), &c1 * &c2);
+        let e = if P::T_MOD_R_IS_ZERO { &a * p() + &b } else { &a + &b * p() };
+        ensure(!c1.is_zero() && is_multiple(&e, &r()), || {
+            format!("ATE_LOOP_COUNT_1 = {c1}, ATE_LOOP_COUNT_2 = {c2}: (c1 + 1) and c1 * c2 (one of them times p, T_MOD_R_IS_ZERO = {}) do not add up to a multiple of r", P::T_MOD_R_IS_ZERO)
+        })
+    });
+    // ATE_LOOP_COUNT_1 = X exactly (same sign flag): only where the source says so in the comment above the constant
+    let src = file.to_string();
     reg.rel(cfg, "bw6_ate_loop_count_1", 0, move || {
-        want((from_limbs(P::ATE_LOOP_COUNT_1), P::ATE_LOOP_COUNT_1_IS_NEGATIVE), (from_limbs(P::X.as_ref()), P::X_IS_NEGATIVE)).map_err(|e| format!("ATE_LOOP_COUNT_1 vs X: {e}"))
+        let documented = comment_above(&src, "const ATE_LOOP_COUNT_1:", 3)?.map(|c| c.iter().any(|l| l == "X")).unwrap_or(false);
+        let got = (from_limbs(P::ATE_LOOP_COUNT_1), P::ATE_LOOP_COUNT_1_IS_NEGATIVE);
+        let w = (from_limbs(P::X.as_ref()), P::X_IS_NEGATIVE);
+        if !documented {
+            observe(if got == w { "pairing:bw6_loop_count_1=x(undocumented)" } else { "pairing:bw6_loop_count_1!=x(undocumented)" });
+            return Ok(());
+        }
+        observe("pairing:bw6_loop_count_1_documented_as_x");
+        want(got, w).map_err(|e| format!("ATE_LOOP_COUNT_1 vs X (the documented value): {e}"))
     });
     reg.rel(cfg, "bw6_ate_loop_count_2", 0, move || {
         let w = x().pow(2) - x() - 1;
@@ -2293,16 +2651,46 @@ struct MntView {
     w0: SBig,
     w1: SBig,
 }
-fn mnt_relations(reg: &mut Reg, cfg: &str, view: fn() -> Result<MntView, String>) {
+/// the exact value of ATE_LOOP_COUNT that the source documents in the comment above the constant (a decimal
+/// number of at least 20 digits), if any
+fn documented_loop_count(file: &str) -> Result<Option<SBig>, String> {
+    let c = match comment_above(file, "const ATE_LOOP_COUNT:", 4)? {
+        Some(c) => c,
+        None => return Err(machinery(format!("no `const ATE_LOOP_COUNT:` in {file}"))),
+    };
+    for l in c {
+        for tok in l.split(|ch: char| !ch.is_ascii_digit()) {
+            if tok.len() >= 20 {
+                return Ok(BigUint::parse_bytes(tok.as_bytes(), 10).map(|v| sb(&v)));
+            }
+        }
+    }
+    Ok(None)
+}
+fn mnt_relations(reg: &mut Reg, cfg: &str, file: &str, view: fn() -> Result<MntView, String>) {
     reg.rel(cfg, "ate_loop_count_congruent_p_mod_r", 0, move || {
         let v = view()?;
         want(v.ate.mod_floor(&sb(&v.r)), sb(&v.p).mod_floor(&sb(&v.r))).map_err(|e| format!("signed ATE_LOOP_COUNT mod r vs p mod r: {e}"))
     })
     .class("pairing:mnt_like");
+    // the pairing needs the congruence above only; the exact value (t - 1, the shortest choice) is demanded only
+    // where the source documents the exact value of the constant, elsewhere it is an observation
+    let src = file.to_string();
     reg.rel(cfg, "ate_loop_count_is_trace_minus_one", 0, move || {
         let v = view()?;
         let t = sb(&v.p) + i(1) - sb(&v.h1) * sb(&v.r);
-        want(v.ate, t - i(1)).map_err(|e| format!("signed ATE_LOOP_COUNT vs t - 1 (the documented value), t = p + 1 - h1 r: {e}"))
+        let tm1 = t - i(1);
+        match documented_loop_count(&src)? {
+            None => {
+                observe(if v.ate == tm1 { "pairing:ate_loop_count=t-1(undocumented)" } else { "pairing:ate_loop_count!=t-1(undocumented)" });
+                Ok(())
+            },
+            Some(d) => {
+                observe("pairing:ate_loop_count_value_documented");
+                let what = if d == tm1 { "t - 1 (the documented value), t = p + 1 - h1 r" } else { "the value documented in the source" };
+                want(v.ate, d).map_err(|e| format!("signed ATE_LOOP_COUNT vs {what}: {e}"))
+            },
+        }
     });
     reg.rel(cfg, "final_exponent_last_chunk", 0, move || {
         let v = view()?;
@@ -2363,7 +2751,7 @@ where
     P::Fr: Rd,
 {
     reg.declare(file, &["MNT4Config"]);
-    mnt_relations(reg, cfg, || {
+    mnt_relations(reg, cfg, file, || {
         let v = naf_value_msb_first(P::ATE_LOOP_COUNT)?;
         let w0 = sb(&from_limbs(P::FINAL_EXPONENT_LAST_CHUNK_ABS_OF_W0.as_ref()));
         Ok(MntView {
@@ -2385,7 +2773,7 @@ where
     P::Fr: Rd,
 {
     reg.declare(file, &["MNT6Config"]);
-    mnt_relations(reg, cfg, || {
+    mnt_relations(reg, cfg, file, || {
         let v = naf_value_msb_first(P::ATE_LOOP_COUNT)?;
         let w0 = sb(&from_limbs(P::FINAL_EXPONENT_LAST_CHUNK_ABS_OF_W0.as_ref()));
         Ok(MntView {
@@ -2403,7 +2791,7 @@ where
 }
 fn cp6_782_cfg(reg: &mut Reg, cfg: &str) {
     use ark_cp6_782 as c;
-    mnt_relations(reg, cfg, || {
+    mnt_relations(reg, cfg, "curves/cp6_782/src/curves/mod.rs", || {
         let w0 = sb(&from_limbs(c::FINAL_EXPONENT_LAST_CHUNK_ABS_OF_W0.as_ref()));
         let ate = sb(&from_limbs(&c::ATE_LOOP_COUNT));
         Ok(MntView {
@@ -2569,7 +2957,7 @@ fn registry_curves(r: &mut Reg) {
         te_curve::<J>(r, "ed_on_bls12_381/jubjub", f, TE, true);
         sw_curve::<J>(r, "ed_on_bls12_381/jubjub(sw)", f, SW_ONLY, false);
         sw_te_same_curve::<J>(r, "ed_on_bls12_381/jubjub(sw)");
-        sw_is_image_of_te::<J>(r, "ed_on_bls12_381/jubjub(sw)");
+        sw_is_image_of_te::<J>(r, "ed_on_bls12_381/jubjub(sw)", f);
     }
     {
         use ark_ed_on_bls12_381_bandersnatch::BandersnatchConfig as B;
@@ -2577,7 +2965,7 @@ fn registry_curves(r: &mut Reg) {
         te_curve::<B>(r, "ed_on_bls12_381_bandersnatch", f, TE, true);
         sw_curve::<B>(r, "ed_on_bls12_381_bandersnatch(sw)", f, SW_ONLY, false);
         sw_te_same_curve::<B>(r, "ed_on_bls12_381_bandersnatch(sw)");
-        sw_is_image_of_te::<B>(r, "ed_on_bls12_381_bandersnatch(sw)");
+        sw_is_image_of_te::<B>(r, "ed_on_bls12_381_bandersnatch(sw)", f);
         elligator2_cfg::<B>(r, "ed_on_bls12_381_bandersnatch", f);
     }
     te_curve::<ark_ed_on_bn254::EdwardsConfig>(r, "ed_on_bn254", "curves/ed_on_bn254/src/curves/mod.rs", TE, true);
@@ -2742,8 +3130,22 @@ fn run_group(ctx: &mut Ctx, name: &str, reg: Reg, visited: &mut BTreeSet<String>
         if timing && t0.elapsed().as_secs_f64() > 0.3 {
             eprintln!("TIMING {:.2}s {} {}[{}]", t0.elapsed().as_secs_f64(), c.cfg, c.rel, c.idx);
         }
+        if let Err(e) = &res {
+            if let Some(m) = e.strip_prefix(MACHINERY) {
+                // the harness could not read / parse what it needs: never a verdict
+                MACHINERY_ERRORS.lock().unwrap().push(format!("config {} relation {}[{}]: {m}", c.cfg, c.rel, c.idx));
+                loc.op();
+                return;
+            }
+        }
         loc.check_at(c.rel, res.is_ok(), || format!("config {} relation {}[{}]: {}", c.cfg, c.rel, c.idx, res.as_ref().err().cloned().unwrap_or_default()));
     });
+    for m in std::mem::take(&mut *MACHINERY_ERRORS.lock().unwrap()) {
+        ctx.machinery_error(m);
+    }
+    for (k, n) in std::mem::take(&mut *OBSERVED.lock().unwrap()) {
+        ctx.add_class(k, n);
+    }
     if ctx.sweeps.len() > before {
         match &ctx.replay {
             Some((_, idx)) => {
@@ -2766,9 +3168,11 @@ fn main() {
     ctx.assume("oracle: num-bigint integers; prime-field constants are read by decoding raw Montgomery limbs with R = 2^(64N)");
     ctx.assume("primality of moduli by Miller-Rabin with the first 40 prime bases (the only probabilistic step)");
     ctx.assume("GENERATOR order is checked against all prime factors of p-1 below the factor bound only");
-    ctx.assume("CAN_USE_NO_CARRY_SQUARE_OPT is compared with the multiplication condition: its only consumer (asm squaring) is the asm multiplication with b = a; the doc comment (< u64::MAX >> 2) is stale");
+    ctx.assume("CAN_USE_NO_CARRY_{MUL,SQUARE}_OPT: soundness only (flag set => top bit of the modulus clear and the remaining bits not all one; the squaring flag is held to the multiplication condition because its only consumer, asm squaring, is the asm multiplication with b = a); a conservative false is an observation (class field:no_carry_*_flag_conservative)");
+    ctx.assume("exact values that are a CHOICE (limb count above the minimum, RFC 9380 H.2/H.3 choice of Z, ATE_LOOP_COUNT = t - 1, BW6 ATE_LOOP_COUNT_1 = X, SW generator = image of the TE generator, QUADRATIC_NONRESIDUE_TO_T = NONRESIDUE^T) are demanded only where a comment in the source of the repository under test documents them; otherwise only the defining equation is demanded and the exact value is recorded as a class");
+    ctx.assume("a source file that cannot be read, or a derive attribute that is not in the single-line `#[key = \"value\"]` form, is a machinery error (exit 2), never a violation");
     ctx.assume("Montgomery-form coefficient B of a twisted Edwards config is required to equal 4/(a-d) up to a non-zero square (F_q-birational equivalence), A exactly 2(a+d)/(a-d)");
-    ctx.assume("private constants of curve crates (psi / p-power endomorphism coefficients of BLS12 G2, bn254 G2) are not reachable through the public traits and are left to C12");
+    ctx.assume("private constants of curve crates (psi / p-power endomorphism coefficients of curves/bls12_381 G2, bls12_377 G2, bn254 G2) are not reachable from the harness crate and are left to C12; the PUBLIC ones (curves/bls12_381 g1 BETA + endomorphism, test-curves bls12_381 g2 P_POWER_ENDOMORPHISM_COEFF_0/1, DOUBLE_P_POWER_ENDOMORPHISM + functions) are checked here, and a source scan fails as machinery if the set of `pub const ..ENDOMORPHISM.. / BETA` changes");
     ctx.bound("factor_bound_for_generator_order", FACTOR_BOUND.load(Ordering::Relaxed));
     ctx.bound(
         "points_for_group_order",
@@ -2810,6 +3214,25 @@ fn main() {
         "pairing:bn",
         "pairing:bw6",
         "pairing:mnt_like",
+        // observations / documentation-dependent relations that the unchanged tree is known to produce
+        "sqrt_precomp:none",
+        "sqrt_precomp:case3mod4",
+        "sqrt_precomp:tonelli_shanks",
+        "pairing:ate_loop_count_value_documented",
+        "pairing:bw6_loop_count_1_documented_as_x",
+        "te_sw:generator_correspondence_documented",
+        "fp3:quadratic_nonresidue_to_t_documented_as_nonresidue^t",
+        "curve:cofactor_times_r_in_hasse_interval",
+        "field:constants_through_fp_traits",
+        "root_of_unity:n=1",
+        "root_of_unity:n=2",
+        "root_of_unity:n=2^two_adicity",
+        "root_of_unity:mixed_radix",
+        "glv:lattice_entries_short",
+        "endo:public_constants",
+        "endo:public_eigenvalue",
+        "endo:psi_on_generator",
+        "endo:psi_outside_subgroup",
     ]);
 
     let mk = || Reg { cases: Vec::new(), decl: BTreeMap::new() };
@@ -2817,6 +3240,7 @@ fn main() {
     registry_fields(&mut rf);
     registry_towers(&mut rt);
     registry_curves(&mut rc);
+    public_endomorphisms(&mut rc);
     registry_pairings(&mut rp);
 
     // registry staleness: every `impl <XConfig> for` / derive(MontConfig) in the sources is accounted for
@@ -2837,6 +3261,34 @@ fn main() {
     for (k, d) in &declared {
         if !found.contains_key(k) {
             errs.push(format!("stale registry: registry declares {d} impl(s) of {} in {} but the sources have none", k.1, k.0));
+        }
+    }
+    // public endomorphism constants that are not trait items: the covered set must be the set in the sources
+    {
+        let mut files = Vec::new();
+        rs_files(std::path::Path::new(&format!("{}/curves", repo())), &mut files);
+        rs_files(std::path::Path::new(&format!("{}/test-curves/src", repo())), &mut files);
+        let mut found_consts: BTreeSet<(String, String)> = BTreeSet::new();
+        for f in files {
+            let rel = f.strip_prefix(repo()).unwrap().to_string_lossy().trim_start_matches('/').to_string();
+            if rel.contains("/tests") || rel.contains("curve-constraint-tests") {
+                continue;
+            }
+            if let Ok(txt) = std::fs::read_to_string(&f) {
+                for l in txt.lines() {
+                    let l = l.trim_start();
+                    if let Some(rest) = l.strip_prefix("pub const ") {
+                        let name = rest.split(|c: char| c == ':' || c == ' ').next().unwrap_or("").to_string();
+                        if name.contains("ENDOMORPHISM") || name == "BETA" {
+                            found_consts.insert((rel.clone(), name));
+                        }
+                    }
+                }
+            }
+        }
+        let covered: BTreeSet<(String, String)> = PUBLIC_ENDO_CONSTS.iter().map(|(f, n)| (f.to_string(), n.to_string())).collect();
+        for c in found_consts.symmetric_difference(&covered) {
+            errs.push(format!("stale registry: public endomorphism constant {} in {} is {}", c.1, c.0, if covered.contains(c) { "covered by C16 but no longer `pub const` in the sources" } else { "not covered by C16" }));
         }
     }
     for e in errs {
